@@ -10,6 +10,13 @@
 //	refs  = - | <id>,<id>,...        members = - | n<id>,w<id>,r<id>,...
 //	tags  = - | <k>=<v>;<k>=<v>      (k, v small numbers; rendered as k="k<k>" v="v<v>")
 //
+// History line:  h <pos> <keep> <keep> [<keep>] | <obj> ...     2-3 extractions, one after the other, on the SAME
+//	bytes.Reader (never re-created); <pos> = where the reader stands before the first call: 0 | m (middle) | e (EOF).
+//	Result: hist=<ids>/<check>;<ids>/<check>;...   (err:<msg> for a call that returned an error)
+//
+// Cancel line:   c <n> <keep> | <obj> ...    one extraction whose ReadSeeker cancels the context on its n-th rewind.
+//	Result: cancel=err:<msg> | cancel=ok/<ids>/<check>   plus rewinds=<k>
+//
 // Result:      seq=<passes>/<keepcalls>/<ids>/<check> par=<runs>/<ids>;<ids>;.../<checkfails>
 //
 //	filt=<ids>;.../<check>  filt2=<ids>;...
@@ -365,8 +372,128 @@ func distinctStr(m map[string]int) string {
 	return strings.Join(ks, ";")
 }
 
+// cancelReader cancels the context on its n-th Seek(0,0)
+type cancelReader struct {
+	*bytes.Reader
+	seeks, n int
+	cancel   context.CancelFunc
+}
+
+func (c *cancelReader) Seek(off int64, whence int) (int64, error) {
+	if off == 0 && whence == io.SeekStart {
+		c.seeks++
+		if c.seeks == c.n {
+			c.cancel()
+		}
+	}
+	return c.Reader.Seek(off, whence)
+}
+
+// guarded runs f under recover and a watchdog
+func guarded(f func()) (panicked string, hang bool) {
+	done := make(chan struct{})
+	go func() {
+		defer close(done)
+		panicked = vproto.Safe(f)
+	}()
+	select {
+	case <-done:
+		return panicked, false
+	case <-time.After(20 * time.Second):
+		return "", true
+	}
+}
+
+func splitBar(f []string) (head []string, objs []obj) {
+	i := 0
+	for i < len(f) && f[i] != "|" {
+		i++
+	}
+	head = f[:i]
+	if i < len(f) {
+		for _, t := range f[i+1:] {
+			objs = append(objs, parseObj(t))
+		}
+	}
+	return
+}
+
+func errTok(err error) string { return "err:" + strings.ReplaceAll(err.Error(), " ", "_") }
+
+// histLine: several extractions on ONE reader
+func histLine(f []string) (string, bool) {
+	head, objs := splitBar(f)
+	if len(head) < 3 {
+		return "badline", false
+	}
+	xmlDoc := buildXML(objs)
+	prev := runtime.GOMAXPROCS(1)
+	defer runtime.GOMAXPROCS(prev)
+	rd := bytes.NewReader(xmlDoc)
+	switch head[1] {
+	case "m":
+		rd.Seek(int64(len(xmlDoc)/2), io.SeekStart)
+	case "e":
+		rd.Seek(0, io.SeekEnd)
+	}
+	var parts []string
+	for _, kt := range head[2:] {
+		keep := parseKeep(kt)
+		var d *gosm.Data
+		var err error
+		pan, hang := guarded(func() { d, err = gosm.ExtractXML(context.Background(), rd, keep, true) })
+		if hang {
+			return "timeout hist", true
+		}
+		switch {
+		case pan != "":
+			parts = append(parts, "panic:"+pan)
+		case err != nil:
+			parts = append(parts, errTok(err))
+		default:
+			parts = append(parts, idsOf(d)+"/"+checkStr(d))
+		}
+	}
+	return "hist=" + strings.Join(parts, ";"), false
+}
+
+// cancelLine: the context is cancelled on the n-th rewind of the input
+func cancelLine(f []string) (string, bool) {
+	head, objs := splitBar(f)
+	if len(head) != 3 {
+		return "badline", false
+	}
+	n, _ := strconv.Atoi(head[1])
+	keep := parseKeep(head[2])
+	xmlDoc := buildXML(objs)
+	prev := runtime.GOMAXPROCS(1)
+	defer runtime.GOMAXPROCS(prev)
+	ctx, cancel := context.WithCancel(context.Background())
+	defer cancel()
+	rd := &cancelReader{Reader: bytes.NewReader(xmlDoc), n: n, cancel: cancel}
+	var d *gosm.Data
+	var err error
+	pan, hang := guarded(func() { d, err = gosm.ExtractXML(ctx, rd, keep, true) })
+	if hang {
+		return "timeout cancel", true
+	}
+	switch {
+	case pan != "":
+		return fmt.Sprintf("cancel=panic:%s rewinds=%d", pan, rd.seeks), false
+	case err != nil:
+		return fmt.Sprintf("cancel=%s rewinds=%d", errTok(err), rd.seeks), false
+	}
+	return fmt.Sprintf("cancel=ok/%s/%s rewinds=%d", idsOf(d), checkStr(d), rd.seeks), false
+}
+
 func implLine(line string) (res string, fatal bool) {
 	f := strings.Fields(line)
+	if len(f) > 0 && f[0] == "h" {
+		return histLine(f)
+	}
+	if len(f) > 0 && f[0] == "c" {
+		return cancelLine(f)
+	}
 	if len(f) < 5 || f[0] != "x" || f[4] != "|" {
 		return "badline", false
 	}
